@@ -43,7 +43,9 @@ def base (name : Str) : Str :=
 /-- `(*filterRule).matches` for a non-wildcard rule -/
 def ruleMatches (r : Rule) (name : Str) (isDir : Bool) : Bool :=
   if r.directory && !isDir then false      -- a trailing slash restricts the rule to directories
-  else if r.pattern.contains 47 then r.pattern == name else r.pattern == base name
+  -- a pattern with a slash names the end of the path, at a component boundary (D53)
+  else if r.pattern.contains 47 then r.pattern == name || (47 :: r.pattern).isSuffixOf name
+  else r.pattern == base name
 
 /-- `(*filterRuleList).matches`: the first matching rule decides; exclude ⇒ true -/
 def excluded : List Rule → Str → Bool → Bool
